@@ -238,5 +238,6 @@ class OObject:
 class OContainer:
     """construct.lib.Container living in the SMT heap: addr is an Int term"""
 
-    def __init__(self, addr):
+    def __init__(self, addr, local=False):
         self.addr = addr
+        self.local = local        # allocated by the function under verification
